@@ -37,11 +37,12 @@ func TestMain(m *testing.M) {
 
 // Case is the JSON replay unit: exactly one of TCP / UDP is set.
 type Case struct {
-	TCP  *TCPCase   `json:"tcp,omitempty"`
-	UDP  *UDPCase   `json:"udp,omitempty"`
-	VC   *VConnCase `json:"vconn,omitempty"`
-	BP   *BPCase    `json:"backpressure,omitempty"`
-	Long *LongCase  `json:"long,omitempty"`
+	TCP  *TCPCase     `json:"tcp,omitempty"`
+	UDP  *UDPCase     `json:"udp,omitempty"`
+	VC   *VConnCase   `json:"vconn,omitempty"`
+	BP   *BPCase      `json:"backpressure,omitempty"`
+	Long *LongCase    `json:"long,omitempty"`
+	RT   *RealTCPCase `json:"real_tcp,omitempty"`
 }
 
 // failure is what an oracle returns; timing says that the verdict rests on a bounded
@@ -257,6 +258,9 @@ func run(c Case) (*failure, string, bool, string) {
 	if c.BP != nil {
 		return runBP(c.BP)
 	}
+	if c.RT != nil {
+		return runRealTCP(c.RT)
+	}
 	if c.Long != nil {
 		return runLong(*c.Long), "tcp:long-lived-half-closed/first-to-close=" + c.Long.FirstToClose, true, "long/" + c.Long.FirstToClose
 	}
@@ -350,7 +354,7 @@ func TestReplay(t *testing.T) {
 	if _, err := vkit.LoadReplay(path, &c); err != nil {
 		t.Fatalf("bad replay file: %v", err)
 	}
-	if c.TCP == nil && c.UDP == nil && c.VC == nil && c.BP == nil && c.Long == nil {
+	if c.TCP == nil && c.UDP == nil && c.VC == nil && c.BP == nil && c.Long == nil && c.RT == nil {
 		t.Fatalf("replay file holds neither a tcp nor a udp case")
 	}
 	check(t, c)
